@@ -105,6 +105,15 @@ def run(chk: Check) -> None:
                                                          for c in ast.walk(i) if isinstance(c, ast.Call) and last_name(c) == 'startswith']
     ok = len(slices) == 1 and bool(sw) and all(norm(slices[0].slice.lower) == f'len({norm(c.args[0])})' and norm(slices[0].value) == norm(c.func.value) for c in sw)
     chk.ob('SEG-exact-matching', sn, ok, 'a matching rule is passed down with exactly the matched prefix removed', kind='strip-prefix')
+    # the options dictionary belongs to the caller (the same one is commonly passed to expose_inputs and expose_outputs): absorb consumes a copy
+    opt = 'namespace_options'
+    muts = [c for c in calls_in_func(ab) if isinstance(c.func, ast.Attribute) and norm(c.func.value) == opt and c.func.attr in ('pop', 'popitem', 'clear', 'update', 'setdefault', '__delitem__')]
+    rebinds = [n for n in cfg.nodes if n.kind == 'stmt' and isinstance(n.ast, ast.Assign) and norm(n.ast.targets[0]) == opt]
+    fresh_ = [n for n in rebinds if all(isinstance(v_, (ast.Dict,)) or (isinstance(v_, ast.Call) and norm(v_.func) in ('dict', 'copy.copy', 'copy.deepcopy')) or (isinstance(v_, ast.Call) and last_name(v_) == 'copy')
+                                        for v_ in ([n.ast.value.body, n.ast.value.orelse] if isinstance(n.ast.value, ast.IfExp) else [n.ast.value]))]
+    ok = all(cfg.must_pass(cfg.entry, [m], lambda x: x in fresh_, edge_ok=no_exc) for c in muts for m in cfg.nodes_containing(c))
+    chk.ob('PROV-namespace-options', ab, ok, f'the {len(muts)} place(s) that consume entries of namespace_options work on a copy made inside absorb (the caller\'s dictionary is not emptied)',
+           node=muts[0] if muts else None, kind='options-not-consumed-in-place')
     # polarity: what is kept are the rules that DO start with the prefix
     ffs = chk.ctx.facts.analyse(sn)
     keep_ok = False
